@@ -266,3 +266,50 @@ Section Conc5.
   Definition init5 (now0 : N) (progs : list (list op)) : shared * list local5 :=
     (init_shared now0, map (fun p => {| l5_base := init_local p; l5_loaded := None |}) progs).
 End Conc5.
+
+(* ------------------------------------------------------------------------------------------ *)
+(* RemoveFromList is one critical section                                                      *)
+(* ------------------------------------------------------------------------------------------ *)
+(* memory_ops.go RemoveFromList filters and stores under the WRITE lock: one step of [tstep].  The variant below scans
+   under the read lock (first step: compute the filtered copy, nothing stored) and writes the copy back under a separate
+   write lock (second step) — an AppendToList landing between the two is overwritten by the stale copy.  Kept to be
+   refuted (Proofs/KV.two_section_remove_refuted); the harness' "listrace" scenario is the same race on the real code. *)
+Record local6 := { l6_base : local; l6_copy : option (key * scalar * list scalar) }.
+
+Section Conc6.
+  Variable D : N.
+  Variable V : kvariant.
+
+  Definition tstep_two_section_remove (lo : local6) (sh : shared) : local6 * shared :=
+    let m := sh_m sh in
+    let plain := let '(b, sh') := tstep D V (l6_base lo) sh in ({| l6_base := b; l6_copy := None |}, sh') in
+    match l6_copy lo with
+    | Some (k, x, filtered) =>
+        let b := l6_base lo in
+        let m' := match m k with
+                  | Some it => upd m k (Some {| val := VList filtered; exp := exp it |})
+                  | None => m
+                  end in
+        ({| l6_base := {| lo_prog := tl (lo_prog b); lo_pending := None; lo_seen := lo_seen b ++ [(KRemove k x, OOk)] |};
+            l6_copy := None |},
+         {| sh_m := m'; sh_now := sh_now sh; sh_log := sh_log sh ++ [(KRemove k x, OOk)] |})
+    | None =>
+        match lo_pending (l6_base lo), lo_prog (l6_base lo) with
+        | None, KRemove k x :: _ =>
+            match live (sh_now sh) (m k) with
+            | Some it => match val it with
+                         | VList l =>
+                             let filtered := filter (fun y => negb (scalar_eqb y x)) l in
+                             if Nat.eqb (length filtered) (length l) then plain     (* no member matches: nothing to write *)
+                             else ({| l6_base := l6_base lo; l6_copy := Some (k, x, filtered) |}, sh)
+                         | _ => plain
+                         end
+            | None => plain
+            end
+        | _, _ => plain
+        end
+    end.
+
+  Definition init6 (now0 : N) (progs : list (list op)) : shared * list local6 :=
+    (init_shared now0, map (fun p => {| l6_base := init_local p; l6_copy := None |}) progs).
+End Conc6.
